@@ -12,7 +12,7 @@ pub(crate) mod verif_common {
     use std::sync::atomic::{AtomicBool, AtomicUsize, Ordering};
 
     pub const LOGN: usize = 16;
-    // kind: 1 = fetch_add, 2 = load, 3 = store, 4 = wrapped Iterator::next, 5 = bool load, 6 = bool store
+    // kind: 1 = fetch_add, 2 = load, 3 = store, 4 = wrapped Iterator::next, 5 = bool load, 6 = bool store, 7 = fetch_sub, 8 = swap (std-level stubs)
     #[derive(Clone, Copy)]
     pub struct E { pub loc: usize, pub kind: u8, pub arg: usize, pub ret: usize, pub ord: u8 }
     pub const E0: E = E { loc: 0, kind: 0, arg: 0, ret: 0, ord: 0 };
@@ -38,7 +38,7 @@ pub(crate) mod verif_common {
     }));
     pub fn st() -> &'static mut St { unsafe { &mut *ST.0.get() } }
     pub fn push(e: E) { let s = st(); assert!(s.n < LOGN, "effect log overflow (harness bound)"); s.log[s.n] = e; s.n += 1;
-        if e.kind == 1 || e.kind == 3 { if s.nw == 0 { s.first_w = e; } s.last_w = e; s.nw += 1; }
+        if e.kind == 1 || e.kind == 3 || e.kind == 7 || e.kind == 8 { if s.nw == 0 { s.first_w = e; } s.last_w = e; s.nw += 1; }
         if e.kind == 2 { if s.nl == 0 { s.first_l = e; } s.last_l = e; s.nl += 1; }
     }
     pub fn oc(o: Ordering) -> u8 { match o { Ordering::Relaxed => 0, Ordering::Release => 1, Ordering::Acquire => 2, Ordering::AcqRel => 3, Ordering::SeqCst => 4, _ => 9 } }
@@ -85,6 +85,14 @@ pub(crate) mod verif_common {
         r
     }
     pub fn rg_inc(a: &AtomicCounter) -> usize { rg_faa(a, 1) }
+    // a load of the counter: the environment may have advanced it before
+    pub fn rg_cur(_a: &AtomicCounter) -> usize {
+        let s = rg();
+        let env: usize = kani::any();
+        kani::assume(env <= usize::MAX - s.g);
+        s.g += env;
+        s.g
+    }
     // was position p reserved by one of this call's own pulls?
     pub fn rg_own(p: usize) -> bool { let s = rg(); let mut i = 0; let mut own = false; while i < RN { if i < s.n && s.b[i] <= p && p - s.b[i] < s.k[i] { own = true; } i += 1; } own }
     pub fn rg_last_ret() -> usize { let s = rg(); if s.n == 0 { 0 } else { s.b[s.n - 1] } }
@@ -118,6 +126,9 @@ pub(crate) mod verif_common {
         push(E { loc: l as usize, kind: 2, arg: 0, ret: r, ord: oc(o) });
         r
     }
+    // any other RMW on a counter is logged as kind 7 (no contract clause allows it)
+    pub fn a_swap(a: &AtomicUsize, v: usize, o: Ordering) -> usize { let r: usize = kani::any(); push(E { loc: locid(a as *const AtomicUsize as usize) as usize, kind: 8, arg: v, ret: r, ord: oc(o) }); r }
+    pub fn a_fsub(a: &AtomicUsize, v: usize, o: Ordering) -> usize { let r: usize = kani::any(); push(E { loc: locid(a as *const AtomicUsize as usize) as usize, kind: 7, arg: v, ret: r, ord: oc(o) }); r }
     pub fn a_store(a: &AtomicUsize, v: usize, o: Ordering) { push(E { loc: locid(a as *const AtomicUsize as usize) as usize, kind: 3, arg: v, ret: 0, ord: oc(o) }); }
     pub fn b_load(_a: &AtomicBool, o: Ordering) -> bool {
         let mut r: bool = kani::any();
@@ -128,6 +139,32 @@ pub(crate) mod verif_common {
         r
     }
     pub fn b_store(_a: &AtomicBool, v: bool, o: Ordering) { push(E { loc: 3, kind: 6, arg: v as usize, ret: 0, ord: oc(o) }); }
+
+    // ---- std-level view of a known-size operation: which atomic operations did it perform on its counter? ----
+    // class: 0 = pull reserving n positions, 1 = query (try_get_len / has_more / into_seq_iter), 2 = skip_to_end
+    pub fn chk_std_ops(class: u8, n: usize, len: usize) {
+        let s = st();
+        let mut fa = 0; let mut other_rmw = 0; let mut stores = 0; let mut ok_arg = true; let mut ok_skip = true;
+        let mut i = 0;
+        while i < LOGN {
+            if i < s.n {
+                let e = s.log[i];
+                if e.kind == 1 { fa += 1; if e.arg != n { ok_arg = false; } }
+                if e.kind == 7 { other_rmw += 1; }
+                if e.kind == 3 || e.kind == 8 { stores += 1; if e.arg < len { ok_skip = false; } }
+            }
+            i += 1;
+        }
+        if class == 0 {
+            assert!(fa == 1 && ok_arg, "[C01 C04 C05 C09 std-one-rmw] a pull performs exactly one fetch_add(n) on its counter");
+            assert!(other_rmw == 0 && stores == 0, "[C01 C04 C05 C10 std-no-other-write] a pull performs no other write (store / swap / fetch_sub) on its counter");
+        } else if class == 1 {
+            assert!(fa == 0 && other_rmw == 0 && stores == 0, "[C11 C10 C01 std-query-readonly] a length query / conversion never writes the counter");
+        } else {
+            assert!(stores == 1 && ok_skip, "[C06 std-skip-write] skip_to_end performs exactly one write of a value at or past the end");
+            assert!(fa == 0 && other_rmw == 0, "[C06 C01 std-skip-no-rmw] skip_to_end performs no fetch_add / fetch_sub");
+        }
+    }
 
     // ---- pure oracles ----
     pub fn clamp_end(b: usize, n: usize, len: usize) -> usize { if b >= len { b } else if n <= len - b { b + n } else { len } }
